@@ -64,8 +64,9 @@ NLEN = sp.Symbol('N_points', positive=True, integer=True)
 
 class Arr:
     """numpy array over the request index, by its generic element."""
-    def __init__(self, elem, origin=None):
+    def __init__(self, elem, origin=None, grid=False):
         self.elem = elem; self.origin = origin   # origin: name of the input it aliases (frame check)
+        self.grid = grid                         # internal evaluation grid abstracted by its generic node
     def __repr__(self): return 'Arr(%r)' % (self.elem,)
 
 
